@@ -881,6 +881,11 @@ SET_encode_xer(const asn_TYPE_descriptor_t *td, const void *sptr, int ilevel,
             memb_ptr = (const void *)((const char *)sptr + elm->memb_offset);
         }
 
+		/* CANONICAL-XER (X.693 #9): default values are not encoded */
+		if(xcan && elm->default_value_cmp
+		   && elm->default_value_cmp(memb_ptr) == 0)
+			continue;
+
 		if(!xcan)
 			ASN__TEXT_INDENT(1, ilevel);
 		ASN__CALLBACK3("<", 1, mname, mlen, ">", 1);
